@@ -1,12 +1,15 @@
 """C09 -- the model card is an ordered section tree with stable addressing.
 Theorems: coq/props/C09.v over coq/card/{Path,Tree,Ops}.v.  Correspondence: random operation sequences on a
 real Card vs the model, compared after EVERY operation (outcome class, get_toc(), render(), every live node and
-select(<its path string>))."""
+select(<its path string>)).  A sequence starts from a CONSTRUCTED card: Card(model, template=None | "skops" | unknown name |
+custom dict, model_diagram=False | True | "auto" | section) -- step 0 of every case, model side coq/card/Init.v init_card."""
 import cardgen as G
 
 WEIGHTS = {"add": 30, "select": 10, "chain": 8, "delete": 12, "dellist": 6, "plot": 6, "table": 6, "metrics": 6,
            "hyper": 2, "modelplot": 3, "vis": 4, "fold": 4, "title": 5}
 MODE = {"toc": True, "render": True, "nodes": True, "addr": True}
+# how the card of a sequence is constructed (share of sequences)
+INIT = {"none": 45, "skops": 22, "custom": 28, "nosuch": 3, "clash": 2}
 
 # witnesses of the repaired finding C09-F1 (Card.select / Card.delete accepted an empty name in the middle of a path): replayed
 # against the implementation with the reference oracle on every run (any empty name -> KeyError, nothing changes); they also run
@@ -21,11 +24,25 @@ CORPUS = [
      ["select", "u\x1fv"], ["delete", "x/ \\/ "], ["select", "x"]],
     [["add", False, [["A", "1"], ["A/B", "2"], ["C", "3"]]], ["add", True, [["A", "4"]]], ["delete", "A/B"], ["add", False, [["A/B/D", "5"]]],
      ["dellist", ["A", " B"]], ["dellist", ["A", "B"]], ["chain", ["A", "B"]], ["select", ""], ["delete", "A/"], ["dellist", []]],
+    # constructed cards: Card(model) with all defaults, then addressing into / overwriting / deleting template sections
+    [["init", "skops", "auto", [["C", 1.0], ["clf__alpha", None]], '<div class="sk-top-container">\n  <p>x</p>\n</div>'],
+     ["select", "Model description/Training Procedure/Hyperparameters"], ["chain", ["Model description", "Training Procedure/Model Plot"]],
+     ["add", False, [["Model description", "about"], ["Model description/Training Procedure/Extra", "e"]]],
+     ["delete", "Model description/Training Procedure"], ["select", "Model description/Training Procedure/Model Plot"],
+     ["select", "Citation"], ["dellist", ["Model description", "Evaluation Results"]]],
+    # a custom template with nested, escaped and blank-padded keys; the diagram in a section of the template
+    [["init", {"map": [["A/B", "b"], ["x\\/y", "z"], [" A ", "a"], ["A/B/ C", ""]]}, "A/B", [], "<p>\n  </p>"],
+     ["select", "A/B"], ["select", "x\\/y"], ["chain", ["A", "B", "C"]], ["delete", "A/B"], ["select", "A"]],
+    # model_diagram=True without a template: the default path is created; unknown template name; a key named like a parameter
+    [["init", None, True, [], "<p>"], ["select", "Model description/Training Procedure/Model Plot"], ["select", "Model description"]],
+    [["init", "nosuch", True, [], "<p>"], ["add", False, [["A", "a"]]]],
+    [["init", {"map": [["A", "a"], ["folded", "x"]]}, False, [], ""], ["select", "A"]],
 ] + PROBES
 
 
 def run(R):
-    R.assumptions += ["every card is built from Card(model, template=None) by the public API; Section objects are only "
+    R.assumptions += ["every card is built by Card(model, template=None | str | dict of str -> str, model_diagram=bool | str) with a model "
+                      "object (not a path) and then the public API; Section objects are only "
                       "touched through select(...).visible/.folded assignments (no aliasing of Section objects by the caller)",
                       "keyword names that collide with parameter names (folded, description, alt_text, section, self) cannot be "
                       "section titles in **kwargs calls and are not generated"]
@@ -38,7 +55,7 @@ def run(R):
                          "add theorems: the new section has no subsections (true of every section the API constructs)"]
     R.notes["not_modelled"] = ["Section values passed to _add_single that already carry subsections (ValueError branch): not reachable through the modelled API",
                                "pathlib.Path plot paths (str paths only)", "copy_files=True file copying"]
-    G.run_property(R, "C09", WEIGHTS, MODE, 12, 400, 4000, probes=PROBES, corpus=CORPUS)
+    G.run_property(R, "C09", WEIGHTS, MODE, 12, 400, 4000, probes=PROBES, corpus=CORPUS, init_weights=INIT)
 
 
 def replay(R, rep):
